@@ -25,7 +25,7 @@ DOMAINS: Dict[str, List[Any]] = {
     "int": [-1, 0, 1, 2**31 - 1],
     "double": [-1.0, 0.0, 0.5, 1.0, NAN, float("inf")],
     "float": [gen.f32(0.1), 0.0, gen.f32(0.30000001192092896), NAN, float("-inf")],
-    "string": ["", "1", "10", "9", "a", "é"],
+    "string": ["", "1", "10", "9", "a", "é", "https://example.org/path/a/1", "https://example.org/path/a/2"],
     "date": [dt.date(1969, 12, 31), dt.date(1970, 1, 1), dt.date(2024, 2, 29)],
     "timestamp": [dt.datetime(1969, 12, 31, 23, 59, 59), dt.datetime(1970, 1, 1),
                   dt.datetime(2024, 2, 29, 12, 0, 0, 1)],
@@ -33,6 +33,16 @@ DOMAINS: Dict[str, List[Any]] = {
     "time": [dt.time(0, 0), dt.time(12, 30, 15, 250000)],
 }
 OPS = ["==", "!=", "<", "<=", ">", ">="]
+# literals of a *different but comparable* Python type than the column's (what users actually pass):
+# datetime on a date column and vice versa, ints on float columns, fractional floats on integer columns
+CROSS_LITERALS: Dict[str, List[Any]] = {
+    "date": [dt.datetime(1970, 1, 1, 12, 0), dt.datetime(1969, 12, 31, 23, 59, 59), dt.datetime(1970, 1, 1)],
+    "timestamp": [dt.date(1970, 1, 1), dt.date(1969, 12, 31), dt.date(2024, 2, 29)],
+    "long": [0.5, 1.5, -0.5, 1.0],
+    "int": [0.5, 1.0],
+    "double": [0, 1, -1],
+    "float": [0, 1],
+}
 
 
 def isnan(v: Any) -> bool:
@@ -93,7 +103,7 @@ class C13(Check):
         fields = [{"id": 1, "name": "rid", "type": "long", "required": True},
                   {"id": 7, "name": "x", "type": t_name, "required": False}]
         schema = tables.schema_of(fields)
-        lits = list(dom)
+        lits = list(dom) + CROSS_LITERALS.get(t_name, [])
         filters: List[Tuple[str, Any]] = []
         for op in OPS:
             for l in lits:
@@ -104,6 +114,10 @@ class C13(Check):
             filters.append(("in", {"x": ("in", [a, b])}))
             filters.append(("between", {"x": ("between", (a, b))}))
             filters.append(("between", {"x": ("between", (b, a))}))
+        for trio in itertools.permutations(dom, 3):        # value sets in every order (NaN / None in the middle)
+            filters.append(("in", {"x": ("in", list(trio))}))
+        for a, b in itertools.combinations(dom, 2):
+            filters.append(("in", {"x": ("in", [a, None, b])}))
         for idxs in case["ms"]:
             content = [vals[i] for i in idxs]
             with Scratch("c13") as d:
